@@ -599,3 +599,12 @@ stage("comb_tau", params=lambda W: {"d": W.span("d", 1, 3)})(
 stage("erb", params=lambda W: {"k": W.pick("k", ["gm90", "mg83"])})(
   (lambda P, i, p: P.lau.erb[p["k"]](S(P, i[0]) + 50., Hz=1.),
    lambda i, p: M.m_each(i)))
+
+
+# resampling with a time-varying step (a Stream of dyadic values: exact)
+stage("resample_tv", extra=("step",), params=lambda W: {
+  "new": W.pick("new", [1, 2, 4]), "order": W.span("order", 1, 4)},
+  weight=3)(
+  (lambda P, i, p: P.lp.resample(i[0], old=S(P, i[1]), new=p["new"],
+                                 order=p["order"]),
+   lambda i, p: M.m_resample_tv(i, p["new"], p["order"])))
